@@ -1,1 +1,43 @@
-From ZB Require Import Link.Rx Link.RxSpec.
+(* C06 - each accepted data frame is acknowledged once, with its own sequence number. *)
+From Coq Require Import NArith List.
+From ZB Require Import Base.Bytes Link.LinkSpec Link.LinkSpecProofs Link.Frame Link.Rx Link.RxSpec Link.RxProofs Link.FrameProofs.
+Import ListNotations.
+Open Scope N_scope.
+
+(* the transport writes and upper-layer deliveries produced for a list of accepted frames are, per
+   data frame, exactly one ACK (spec encoding, carrying that frame's packet sequence number) followed
+   by the delivery; ACK frames produce neither; nothing else is written *)
+Theorem C06_ack_then_deliver : forall fs ps ev opn, filter is_wd (snd (outs_of ps ev opn fs)) = expected_wd opn fs.
+Proof. exact outs_of_wd. Qed.
+Print Assumptions C06_ack_then_deliver.
+
+(* ... and the accepted frames are exactly the well-formed frames of the stream (C01), for every state,
+   handler and chunking; rejected input is by definition not in spec_parse *)
+Theorem C06_accepted_are_wellformed : forall h st c cs,
+  bytes_ok (rx_buf st) -> Forall bytes_ok (c :: cs) ->
+  let '(p, e, o) := outs_of (rx_pack_seq st) (rx_ack_event st) (rx_open st)
+                            (spec_parse (rx_buf st ++ concat (c :: cs))) in
+  exists buf, rx_run h st (c :: cs) = ({| rx_buf := buf; rx_pack_seq := p; rx_ack_event := e; rx_open := rx_open st |}, o, false).
+Proof. exact rx_chunk_independent_exact. Qed.
+Print Assumptions C06_accepted_are_wellformed.
+
+(* the bytes written are the well-formed ACK frame for that sequence number *)
+Theorem C06_ack_bytes_wellformed : forall q, q < 4 ->
+  ack_bytes q = spec_ack_bytes q /\ spec_decode (ack_bytes q) = Some (ack_w q false, []) /\ fl_aseq (w_flags (ack_w q false)) = q.
+Proof.
+  intros q H. split; [exact (ack_bytes_spec q H)|].
+  destruct (ack_frame_wellformed q false [] H) as (_ & _ & _ & D & _ & A).
+  split; [|exact A]. unfold ack_bytes. rewrite <- (app_nil_r (serialize (ack_frame q false))). exact D.
+Qed.
+Print Assumptions C06_ack_bytes_wellformed.
+
+(* independent of the handler *)
+Theorem C06_regardless_of_handler : forall h1 h2 chunks st, rx_run h1 st chunks = rx_run h2 st chunks.
+Proof. exact rx_handler_irrelevant. Qed.
+Print Assumptions C06_regardless_of_handler.
+
+Example C06_instance :
+  let f := {| w_size := 14; w_flags := 0xC8; w_crc8 := 0; w_ack := false; w_hdr := Some 65536; w_data := [1; 2; 3] |} in
+  filter is_wd (snd (outs_of 0 None true [f; f])) =
+  [OWrite (spec_ack_bytes 2); ODeliver f; OWrite (spec_ack_bytes 2); ODeliver f].
+Proof. vm_compute. reflexivity. Qed.
